@@ -189,8 +189,13 @@ def generate(rng, tier):
         shuffle_ = rng.random() < 0.6
         if not shuffle_:
             ids = sorted(ids, key=lambda x_: 0)      # keep generation order (groups adjacent, ascending)
-        return {'kind': 'ids', 'ids': ids, 'delim': delim, 'as': rng.choice(['str', 'str', 'str', 'id', 'id', 'name', 'name', 'equal_objs', 'reaction', 'surface_reaction',
-                                  'surface_reaction_late_id']),
+        as_ = rng.choice(['str', 'str', 'str', 'id', 'id', 'name', 'name', 'equal_objs', 'reaction', 'surface_reaction',
+                          'surface_reaction_late_id'])
+        if as_ in ('reaction', 'surface_reaction', 'surface_reaction_late_id'):
+            # real pMuTT objects: a change that compares them by value pays a to_dict() per comparison, so keep the
+            # collection small enough for the run to end (the verdict must not depend on a watchdog)
+            ids = ids[:10]
+        return {'kind': 'ids', 'ids': ids, 'delim': delim, 'as': as_,
                 'numbering': numbering, 'repad': repad}
     if r < 0.62:
         why = rng.choice(['bad_suffix', 'non_str'])
